@@ -96,10 +96,11 @@ type MapV struct {
 }
 
 type Obj struct {
-	ID   int
-	Name string
-	V    Val
-	Typ  types.Type
+	ID     int
+	Name   string
+	V      Val
+	Typ    types.Type
+	AllocG *Term // path guard under which the object was allocated (nil = unconditional)
 }
 
 // ExecError is raised (by panic) when the executor meets something it cannot encode. Checks fail closed on it.
@@ -566,6 +567,11 @@ func (x *Exec) Store(p *PtrV, v Val, g *Term) {
 		gg := x.C.And(g, al.G)
 		if gg.IsConst() && gg.C == 0 {
 			continue
+		}
+		// an object allocated under this very guard does not exist on other paths: the store is unconditional for it
+		// (keeps freshly built locals such as composite literals constant instead of ite(g, v, zero))
+		if al.Obj.AllocG != nil && al.Obj.AllocG == gg {
+			gg = x.C.True
 		}
 		al.Obj.V = x.storePath(al.Obj.V, al.Path, v, gg)
 	}
